@@ -15,7 +15,7 @@ Directives (comment lines starting with `//@`, arguments shell-quoted):
   //@ rewrite NAME "FROM" => "TO"                         literal replacement, must apply >= 1 time
   //@ rewrite? NAME "FROM" => "TO"                        same, but may apply 0 times (recorded)
   //@ drop NAME from "LIT_A" through "LIT_B" as "TEXT"    replaces whole lines [line containing LIT_A ..
-                                                          line containing LIT_B] by TEXT (recorded as a drop)
+                                                          line containing LIT_B] by TEXT (recorded as a drop); `drop?` may not apply
   //@ insert NAME before "LIT" : TEXT                     LIT must occur exactly once
   //@ insert NAME after "LIT" : TEXT
   //@ insert NAME before-brace "LIT" : TEXT               inside the unique line containing LIT, before its last `{` (loop invariants)
@@ -183,10 +183,13 @@ def build(template_path, repo=None):
                 raise stage.LostAnchor("%s: rewrite source %r not present in %s" % (u.name, frm, name))
             pieces[name] = pieces[name].replace(frm, to)
             rec["rewrites"].append("%s: %r -> %r (%d occurrence(s))" % (name, frm, to, n))
-        elif op == "drop":
+        elif op in ("drop", "drop?"):
             name, la, lb, rep = t[1], t[3], t[5], t[7]
             ls = pieces[name].splitlines(keepends=True)
             ha = [i for i, l in enumerate(ls) if la in l]
+            if op == "drop?" and not ha:
+                rec["drops"].append("%s: optional drop %r not applicable" % (name, la))
+                continue
             if len(ha) != 1:
                 raise stage.LostAnchor("%s: drop start %r matches %d times" % (u.name, la, len(ha)))
             hb = [i for i in range(ha[0], len(ls)) if lb in ls[i]]
